@@ -29,8 +29,8 @@ func init() {
 			}
 			return 64
 		},
-		Run:  runC13,
-		Need: []string{"probes", "probes_wrong_key", "probes_not_entitled", "probes_entitled_ok", "gov_delivered_probes"},
+		Run:         runC13,
+		Need:        []string{"probes", "probes_wrong_key", "probes_not_entitled", "probes_entitled_ok", "gov_delivered_probes"},
 		Assumptions: []string{"entitlement is decided from the observed pre-state by decoded address; probes carry zero fee so that the ante stage writes nothing to custom-module stores"},
 	})
 }
